@@ -36,6 +36,8 @@ type Node struct {
 	W int `json:"w,omitempty"`
 	H int `json:"h,omitempty"`
 	M int `json:"m,omitempty"`
+	// span / inline-block: vertical-align "top" | "bottom" ("" = baseline)
+	VA string `json:"va,omitempty"`
 }
 
 // Para is a paragraph with its block-level text properties.
@@ -49,6 +51,9 @@ type Para struct {
 	OW     string `json:"ow,omitempty"`     // overflow-wrap
 	WB     string `json:"wb,omitempty"`     // word-break
 	Nodes  []Node `json:"nodes"`
+	// PageH: page height in px (0: one tall page per block); with a small page the block is fragmented
+	// and continues on the following pages
+	PageH float64 `json:"pageh,omitempty"`
 }
 
 func (n *Node) ls() float64 { return float64(n.ML + n.BL + n.PL) }
@@ -70,6 +75,9 @@ func (n *Node) html(sb *strings.Builder) {
 		fmt.Fprintf(sb, `<b style="display:inline-block;width:%dpx;height:%dpx`, n.W, n.H)
 		if n.M != 0 {
 			fmt.Fprintf(sb, ";margin:0 %dpx", n.M)
+		}
+		if n.VA != "" {
+			sb.WriteString(";vertical-align:" + n.VA)
 		}
 		sb.WriteString(`"></b>`)
 	case KSpan:
@@ -98,6 +106,9 @@ func (n *Node) html(sb *strings.Builder) {
 		}
 		if n.FS != 0 {
 			st = append(st, fmt.Sprintf("font-size:%dpx", n.FS))
+		}
+		if n.VA != "" {
+			st = append(st, "vertical-align:"+n.VA)
 		}
 		if len(st) != 0 {
 			sb.WriteString(` style="` + strings.Join(st, ";") + `"`)
@@ -128,7 +139,11 @@ func (p *Para) divStyle(w int) string {
 // css is the style sheet shared by all blocks of the paragraph.
 func (p *Para) css(family string) string {
 	var sb strings.Builder
-	sb.WriteString("@page{size:20000px 60000px;margin:0}html,body{margin:0;padding:0;display:block}")
+	if p.PageH > 0 {
+		fmt.Fprintf(&sb, "@page{size:20000px %gpx;margin:0}html,body{margin:0;padding:0;display:block}", p.PageH)
+	} else {
+		sb.WriteString("@page{size:20000px 60000px;margin:0}html,body{margin:0;padding:0;display:block}")
+	}
 	fmt.Fprintf(&sb, "div{font-family:%s;font-size:%dpx;white-space:%s;line-height:%s;margin:0;padding:0;orphans:1;widows:1;break-after:page", family, p.F, p.WS, p.LH)
 	if p.OW != "" {
 		sb.WriteString(";overflow-wrap:" + p.OW)
